@@ -164,6 +164,50 @@ func ruleSchema(c *Ctx) {
 		c.check(got == want, key, c.pos(fn.Pos()), fname(fn), "`"+p.label+"` prints "+short(ts[0].String())+": same key tree and scalars as `write` reads",
 			fmt.Sprintf("`%s` prints %s with YAML shape %s, but `crd write` decodes %s with shape %s: yaml.v3 silently ignores unknown keys, so piping the output into `crd write` loses or changes data", p.label, short(ts[0].String()), got, short(consumer.String()), want))
 	}
+	// the `cmt` modifier of `write conv` adds a text and keeps everything else of the instance
+	if mf := c.fn("input", "ChordMetaTextMotifier.Modify"); mf != nil {
+		c.site(1)
+		problem := ""
+		nStores := 0
+		allInstrs(mf, func(in ssa.Instruction) {
+			st, ok := in.(*ssa.Store)
+			if !ok {
+				return
+			}
+			n, base, ok := fieldName(st.Addr)
+			if !ok || base != ssa.Value(mf.Params[1]) {
+				return
+			}
+			nStores++
+			if n != "Meta" {
+				problem = "the modifier overwrites the instance's " + n
+				return
+			}
+			guarded := false
+			for _, pc := range pathConds(st.Block()) {
+				if b, ok := pc.cond.(*ssa.BinOp); ok && ((b.Op == token.EQL && pc.side) || (b.Op == token.NEQ && !pc.side)) && isNilConst(b.Y) {
+					if fn2, _, ok := loadedField(b.X); ok && fn2 == "Meta" {
+						guarded = true
+					}
+				}
+			}
+			if !guarded {
+				problem = "the modifier replaces the instance's meta map even when one exists: lyrics, markers and other metadata of the chord are lost when `write conv -c cmt` output is piped into `write`"
+			}
+		})
+		sets := callsTo(mf, "op.Meta.Set")
+		if problem == "" && len(sets) != 1 {
+			problem = fmt.Sprintf("%d Meta.Set calls, want exactly one (the txt key)", len(sets))
+		}
+		if problem == "" {
+			if k, ok := constString(sets[0].Common().Args[1]); !ok || k != "txt" {
+				problem = "the modifier does not write the txt key"
+			}
+		}
+		c.check(problem == "", fname(mf), c.pos(mf.Pos()), fname(mf), "creates a meta map only when there is none and sets txt only", fname(mf)+": "+problem)
+	} else {
+		c.missing("input.ChordMetaTextMotifier.Modify")
+	}
 	// `write parse` is a debugging view, not an interchange producer: recorded only
 	c.ok("consumer|write", c.pos(pi.Pos()), fname(pi), "`write` decodes "+short(consumer.String())+": "+want)
 }
@@ -863,6 +907,40 @@ func ruleCircleWire(c *Ctx) {
 		c.check(problem == "", name, c.pos(fn.Pos()), name, "NewScale(key) -> member; every step in order on the current member", name+": "+problem)
 	} else {
 		c.missing("op.KeyConversionChain.Convert")
+	}
+	// the CLI applies the letters of -c from left to right: conversions[i] = f(command[i])
+	for f, a := range funcAlias {
+		if a != "cmd.infoKeyCmdConv.RunE" {
+			continue
+		}
+		c.site(1)
+		good := false
+		allInstrs(f, func(in ssa.Instruction) {
+			st, ok := in.(*ssa.Store)
+			if !ok {
+				return
+			}
+			ia, ok := st.Addr.(*ssa.IndexAddr)
+			if !ok || typeName(st.Val.Type()) != "op.KeyConversion" {
+				return
+			}
+			call, ok := st.Val.(*ssa.Call)
+			if !ok {
+				return
+			}
+			// index and rune come from the same `range command` step
+			idx, ok1 := ia.Index.(*ssa.Extract)
+			var rn *ssa.Extract
+			if len(call.Call.Args) == 1 {
+				rn, _ = call.Call.Args[0].(*ssa.Extract)
+			}
+			if ok1 && rn != nil && idx.Tuple == rn.Tuple && idx.Index == 1 && rn.Index == 2 {
+				if _, isNext := idx.Tuple.(*ssa.Next); isNext {
+					good = true
+				}
+			}
+		})
+		c.check(good, "cmd.infoKeyCmdConv.RunE|chain-order", c.pos(f.Pos()), fname(f), "conversions[i] is the conversion of the i-th letter", "the letters of -c are not stored at their own positions (conversions[i] = f(command[i])): the chain is applied in another order, and p / r do not commute with each other")
 	}
 	// member(): every seed spelling becomes a scale of the member; Keys() lists them all
 	if fn := c.fn("op", "circleMemberSeed.member"); fn != nil {
